@@ -1,10 +1,10 @@
 #!/bin/bash
-# allseeds.sh: apply every seeded change in turn, run the quick check of its property, undo it.
-# Prints one line per seed; "MISSED" if the check does not alarm.
+# allseeds.sh: apply every seeded change in turn, run the quick check of its property (or the checks its meta.json
+# names under "caught_by"), undo it.  Prints one line per seed; "MISSED" if no check alarms.
 cd /verif
 for D in seeded/*/; do
   N=$(basename $D)
-  P=$(python3 -c "import json;print(json.load(open('$D/meta.json'))['property'])")
-  OUT=$(bash tools/seedtest.sh $N $P 2>&1 | grep -c "VIOLATION")
-  if [ "$OUT" -ge 1 ]; then echo "$N $P caught"; else echo "$N $P MISSED"; fi
+  PS=$(python3 -c "import json;m=json.load(open('$D/meta.json'));print(' '.join(m.get('caught_by',[m['property']])))")
+  OUT=$(bash tools/seedtest.sh $N $PS 2>&1 | grep -c "VIOLATION")
+  if [ "$OUT" -ge 1 ]; then echo "$N $PS caught"; else echo "$N $PS MISSED"; fi
 done
